@@ -29,3 +29,6 @@ func (gw *GlobalWindow) VerifCloseInputAndWait() {
 // VerifRewrittenPredicate returns the TRIGGER WHEN predicate after aggregate calls were
 // replaced by placeholders (debugging aid, never compared).
 func (gw *GlobalWindow) VerifRewrittenPredicate() string { return gw.rewrittenPredicate }
+
+// VerifReapIdle runs the STATETTL reaper once, as its ticker would at wall-clock time now.
+func (gw *GlobalWindow) VerifReapIdle(now time.Time) { gw.reapIdleKeys(now) }
